@@ -101,6 +101,8 @@ def gen(tier, rnd):
             ls.append('M %d %d %s %s %d %s %s' % (method, seq, optstr(ro), rpl.hex() or '-', code, optstr(po), ppl.hex() or '-'))
             if j == 1 and with_t:
                 ls.append('T %d' % (1 if thorough or k == 0 else 3))
+        if k % 4 != 0:
+            ls.append('O %d' % rnd.choice((1, 2, 3)))          # observe: registration, notifications (own partial IV), cancel under the same token
         ls.append('E')
         cases.append((cid[0], ls))
     return cases
@@ -159,10 +161,10 @@ def run(pid, tier):
         rule='(states / transitions: TLC states of the trace validation runs; Oscore.tla consists of pure operators, there is no closed model) '
              'sender / recipient ids of 0..7 bytes, id context and master salt present and absent, two master secrets; all seven request methods, nine response codes, '
              '0-7 options out of 15 request-side and 6 response-side ones (class E, class U, Observe, Block2, Size1, No-Response, Echo, Request-Tag, unknown), payload 0..900 bytes; '
-             'partial IVs 0 .. 2^40-2 at every encoded length; every (quick: every third) single-bit flip and every truncation of a protected request, a request under another '
+             'partial IVs 0 .. 2^40-2 at every encoded length; observe registration, notifications with their own partial IV, cancellation under the same token; every (quick: every third) single-bit flip and every truncation of a protected request, a request under another '
              'master secret, then a genuine request'),
         time.time() - t0, violations=len(vio_out),
         assumptions=['the AEAD primitive (GnuTLS AES-CCM) is trusted: its inputs and output are compared at the seam, not recomputed',
-                     'AES-CCM-16-64-128 / HKDF-SHA-256 only; responses without their own partial IV (no observe notifications, no Appendix B.1.2 / B.2 exchanges)',
+                     'AES-CCM-16-64-128 / HKDF-SHA-256 only; no Appendix B.1.2 / B.2 exchanges',
                      'header and token bytes and class U options are not integrity protected by OSCORE: modifications there may be accepted'])
     V.finish(pid, vio_out, [])
